@@ -151,8 +151,17 @@ impl<'tcx> Cx<'tcx> {
         for def in tcx.hir_body_owners() {
             let kind = tcx.def_kind(def);
             // statics too: their initialisers (Lazy::new(f)) are the only callers of some functions
-            if matches!(kind, DefKind::Fn | DefKind::AssocFn | DefKind::Closure | DefKind::SyntheticCoroutineBody | DefKind::Static { .. }) {
+            // constants: the initialiser of a table (`const T: [(..); N] = [..]`) is what a table-driven loop iterates; only those
+            // whose MIR nothing has consumed yet (a constant used in a type was already evaluated during type checking)
+            let is_const = matches!(kind, DefKind::Const { .. } | DefKind::AssocConst { .. });
+            if is_const && tcx.generics_of(def.to_def_id()).requires_monomorphization(tcx) {
+                continue;
+            }
+            if is_const || matches!(kind, DefKind::Fn | DefKind::AssocFn | DefKind::Closure | DefKind::SyntheticCoroutineBody | DefKind::Static { .. }) {
                 let (b, p) = tcx.mir_promoted(def);
+                if is_const && (b.is_stolen() || p.is_stolen()) {
+                    continue;
+                }
                 let body: Body<'tcx> = b.borrow().clone();
                 let prom: Vec<Body<'tcx>> = p.borrow().iter().cloned().collect();
                 bodies.push((def, kind, body, prom));
@@ -327,7 +336,7 @@ impl<'tcx> Cx<'tcx> {
         } else {
             J::Null
         };
-        let ckind = match if matches!(kind, DefKind::Static { .. }) { None } else { tcx.coroutine_kind(did) } {
+        let ckind = match if matches!(kind, DefKind::Static { .. } | DefKind::Const { .. } | DefKind::AssocConst { .. }) { None } else { tcx.coroutine_kind(did) } {
             Some(k) => s(format!("{:?}", k)),
             None => J::Null,
         };
@@ -335,7 +344,7 @@ impl<'tcx> Cx<'tcx> {
             DefKind::Fn | DefKind::AssocFn => s(format!("{:?}", tcx.visibility(did))),
             _ => J::Null,
         };
-        let is_static = matches!(kind, DefKind::Static { .. });
+        let is_static = matches!(kind, DefKind::Static { .. } | DefKind::Const { .. } | DefKind::AssocConst { .. });
         let (file, line, _) = self.span(body.span);
         let hi = {
             let sm = tcx.sess.source_map();
